@@ -13,23 +13,23 @@ import (
 )
 
 type msOp struct {
-	Op string `json:"op"` // add upsert delete deleteifexists tombstone get contains istombstoned size
-	K  []byte `json:"k"`
-	V  []byte `json:"v"`
-	KNil bool `json:"knil,omitempty"`
-	VNil bool `json:"vnil,omitempty"`
+	Op   string `json:"op"` // add upsert delete deleteifexists tombstone get contains istombstoned size
+	K    []byte `json:"k"`
+	V    []byte `json:"v"`
+	KNil bool   `json:"knil,omitempty"`
+	VNil bool   `json:"vnil,omitempty"`
 	// observation
-	Err  string `json:"err,omitempty"`
-	Val  []byte `json:"val,omitempty"`
-	ValNil bool `json:"valnil,omitempty"`
-	Bool bool   `json:"bool,omitempty"`
-	N    int    `json:"n,omitempty"`
-	Raw  uint64 `json:"raw"`
+	Err    string `json:"err,omitempty"`
+	Val    []byte `json:"val,omitempty"`
+	ValNil bool   `json:"valnil,omitempty"`
+	Bool   bool   `json:"bool,omitempty"`
+	N      int    `json:"n,omitempty"`
+	Raw    uint64 `json:"raw"`
 }
 
 type c14Case struct {
-	Ops            []msOp `json:"ops"`
-	FlushTombs     bool   `json:"flush_tombs"`
+	Ops        []msOp `json:"ops"`
+	FlushTombs bool   `json:"flush_tombs"`
 	// observations
 	Iter     []kvPair `json:"iter"`
 	IterNil  []bool   `json:"iter_nil"`
@@ -407,8 +407,8 @@ func genC14(r *rand.Rand, tier string) []Case {
 func init() {
 	register(&Prop{
 		ID: "C14", Num: 14,
-		Gen: genC14,
-		New: func() Case { return &c14Case{} },
+		Gen:  genC14,
+		New:  func() Case { return &c14Case{} },
 		Rule: "random call programs over key universes of 3, 12 and 200 keys (incl. empty key, nil key, nil/empty/long values), raw estimate read after every call, then Flush or FlushWithTombstones and the table read back. Non-trivial: >=3 mutating calls and >=1 query.",
 		Shrink: func(c Case) []Case {
 			cc := c.(*c14Case)
